@@ -2,7 +2,7 @@
 
 PROPS = {
     'C08': {
-        'contracts': ['contracts.gate:StartEnd'],
+        'contracts': ['contracts.gate:StartEnd', 'contracts.gate:HighLow', 'contracts.gate:Ellipse'],
         'bounded': False,
         'level': 'proof',
         'explanation': 'gate.start_end / high_low / ellipse: mask == documented predicate, gated == data[mask], '
